@@ -49,6 +49,13 @@ NewDecimalExact(i, e) ==
 \* Duration.Duration(): milliseconds as Go nanoseconds (time.Duration is a 64-bit count of nanoseconds), or failure
 DurationToNanos(ms) == LET x == Mul(ms, FromInt(1000000)) IN IF InI64(x) THEN Ok(VLong(x)) ELSE PFail
 
+\* the Go-side accessors: whole units, truncating toward zero; NewDuration(time.Duration) keeps whole milliseconds of
+\* a nanosecond count; NewDatetime(d.Time()) is d
+UnitMillis(u) == CASE u = "Duration.ToDays" -> 86400000 [] u = "Duration.ToHours" -> 3600000 [] u = "Duration.ToMinutes" -> 60000
+                   [] u = "Duration.ToSeconds" -> 1000 [] OTHER -> 1
+DurationToUnit(u, ms) == Ok(VLong(DivTrunc(ms, UnitMillis(u))))
+NewDurationFromNanos(ns) == Ok(VDur(DivTrunc(ns, 1000000)))
+
 \* a binary floating-point number m * 2^p (m: 64-bit integer) times 10^4, truncated toward zero
 RECURSIVE Pow2(_)
 Pow2(k) == IF k = 0 THEN 1 ELSE 2 * Pow2(k - 1)
